@@ -123,6 +123,11 @@ func (v *authorizer) Authorize() error {
 	// token ements should first be converted to builder elements
 	// with the token's symbol table, then converted back
 	// with the verifier's symbol table
+
+	// from here on the world holds the token's facts and whatever has been derived so
+	// far, also when the evaluation below stops with an error: it must not be saved
+	v.dirty = true
+
 	for _, fact := range *v.biscuit.authority.facts {
 		f, err := fromDatalogFact(v.biscuit.symbols, fact)
 		if err != nil {
@@ -142,7 +147,6 @@ func (v *authorizer) Authorize() error {
 	if err := v.world.Run(v.symbols); err != nil {
 		return err
 	}
-	v.dirty = true
 
 	var errs []error
 
@@ -281,10 +285,11 @@ func (v *authorizer) Authorize() error {
 }
 
 func (v *authorizer) Query(rule Rule) (FactSet, error) {
+	// a run that stops with an error leaves its partial derivations in the world
+	v.dirty = true
 	if err := v.world.Run(v.symbols); err != nil {
 		return nil, err
 	}
-	v.dirty = true
 
 	facts := v.world.QueryRule(rule.convert(v.symbols), v.symbols)
 
